@@ -373,7 +373,7 @@ func attributeIndependenceIn(r *core.Run, rel string, srcPkgs []string, table st
 					}
 				}
 			}
-			recs = append(recs, &copyRec{key: fmt.Sprintf("%s | %s = %s", fn, lhsStr, chain), chain: chain, pos: at.Pos(), foreign: foreign, foreignIfs: foreignIfs, allIfs: allIfs})
+			recs = append(recs, &copyRec{key: fmt.Sprintf("%s | %s = %s", fn, lhsStr, chainKey(info, fd, chain)), chain: chain, pos: at.Pos(), foreign: foreign, foreignIfs: foreignIfs, allIfs: allIfs})
 			return true
 		})
 		for _, c := range recs {
@@ -634,4 +634,60 @@ func isOutputType(t types.Type) bool {
 		return !strings.HasSuffix(n.Obj().Name(), "Error")
 	}
 	return false
+}
+
+var chainTypesCache = map[*ast.FuncDecl]map[string]string{}
+
+// chainKey prints an access chain for an obligation key with its root variable
+// replaced by the variable's type, so that the key does not change when the
+// local is renamed: psmKeyExt.ForeignKey → ‹*PSMKeyFieldOptions›.ForeignKey.
+func chainKey(info *types.Info, fd *ast.FuncDecl, chain string) string {
+	m := chainTypesCache[fd]
+	if m == nil {
+		m = map[string]string{}
+		ast.Inspect(fd, func(n ast.Node) bool {
+			id, ok := n.(*ast.Ident)
+			if !ok || id.Name == "_" {
+				return true
+			}
+			obj := info.Defs[id]
+			if obj == nil {
+				return true
+			}
+			v, isVar := obj.(*types.Var)
+			if !isVar || v.IsField() {
+				return true
+			}
+			t := types.TypeString(v.Type(), func(*types.Package) string { return "" })
+			if prev, seen := m[id.Name]; seen && prev != t {
+				m[id.Name] = "var"
+			} else {
+				m[id.Name] = t
+			}
+			return true
+		})
+		// variables bound by type switches have one implicit object per clause
+		ast.Inspect(fd, func(n ast.Node) bool {
+			if cc, ok := n.(*ast.CaseClause); ok {
+				if v, ok := info.Implicits[cc].(*types.Var); ok {
+					t := types.TypeString(v.Type(), func(*types.Package) string { return "" })
+					if prev, seen := m[v.Name()]; seen && prev != t {
+						m[v.Name()] = "var"
+					} else {
+						m[v.Name()] = t
+					}
+				}
+			}
+			return true
+		})
+		chainTypesCache[fd] = m
+	}
+	root, rest := chain, ""
+	if j := strings.IndexAny(chain, ".["); j >= 0 {
+		root, rest = chain[:j], chain[j:]
+	}
+	if t, ok := m[root]; ok {
+		return "‹" + t + "›" + rest
+	}
+	return chain
 }
